@@ -7,6 +7,16 @@ HERE = os.path.dirname(os.path.dirname(os.path.abspath(__file__)))
 BASE_OFF = "cd /repo && env -u SVGPATHTOOLS_VERIF /venv/bin/python -m pytest -ra -q -p no:cacheprovider --timeout=900 --continue-on-collection-errors"
 
 CHECKS = {
+ 'C01': dict(
+   technique="TLA+ serialiser design + round-trip theorem (PathD over PathSem) model-checked with TLC; every model path x 8 options replayed through the real Path.d/parse_path; tokens of the real d() output validated as traces by PathData_Trace.tla",
+   text="TLC proves Parse(Emit(p,o)) = p, NoDrop, ZIffClosed... for every lattice path (L/Q/C/A, closed by line or curve, S/T-smooth joints, several subpaths) and all 8 option combinations; each path is built as a real Path (integer, exact tiny/huge/halves affine images, nasty doubles; also paths that come out of the parser, then mutated) and parse_path(p.d(o)) must satisfy C01's relation; the text the real d() wrote is lexed by the reference grammar and its meaning under the spec must be the original segments.",
+   note="Trusted: TLC, PathSem semantics, Python repr/float round trip. Relative form on non-dyadic doubles is compared with a 1e-9 relative tolerance (rounding not modelled). Zero-length Lines and null arcs excluded as the property says.",
+   ref="4 (C01), 3.3"),
+ 'C16': dict(
+   technique="TLA+ state machine of Path's mutators and caches (PathSeq) and of the per-segment length cache (SegCache) model-checked with TLC; every behaviour replayed on real objects and compared with fresh ones; recorded histories validated by PathSeq_Trace.tla",
+   text="TLC checks CacheCoherent / AnswerFresh / MutInvalidates over all histories of the 15 mutator and query actions to depth 4 (quick) / 6 (thorough); every behaviour of a small configuration plus simulated long ones is replayed on a warm and a lazy real Path with every query compared with a freshly built Path and with the model after each step, with and without scipy; SegCache histories are replayed on real Cubic/Quadratic segments; random 60-step histories of real Paths are accepted by the trace spec, which demands the fresh answers.",
+   note="Trusted: TLC; the projection (axis-parallel integer Lines; one concretisation swaps in a collinear CubicBezier). Mutating a segment object that sits inside a Path is not a mutation through the Path interface and is not generated. Open finding: equal Paths with different hidden closed flag hash differently.",
+   ref="4 (C16), 3.4"),
  'C02': dict(
    technique="TLA+ state machine of the SVG path-data interpreter (PathData/PathSem/PathLex) model-checked with TLC; every TLC behaviour replayed into parse_path; real-parser traces validated by PathData_Trace.tla",
    text="TLC enumerates every program over the 20 command letters up to the depth bound (plus simulated longer ones) with the machine invariants and the spelling-equivalence theorems checked in the model; each terminal behaviour is rendered in several lexical spellings and must parse to exactly the model's segments; every string of the lexer DFA is fed to the real tokenizer; per-group events of the real parser on random long programs and on the repository's own d-strings are accepted by the trace spec.",
